@@ -148,17 +148,16 @@ func (c *loopClient) entryFeasible(e *Engine, st *State) bool {
 			}
 		}
 		okAtoms := true
-		for name, fd := range preds {
-			af := st.Get("call:" + FuncObj(c.w.p.Parser, fd).FullName() + "(" + c.firstRune + ")")
+		for _, key := range st.Keys() {
+			af := st.Get(key)
 			if af == nil || !af.HasEq {
 				continue
 			}
-			v, _ := evalRunePred(c.w.p, fd, r, 0)
-			if (af.Eq == "true") != v {
+			if v, known := runeAtom(c.w.p, key, c.firstRune, r); known && (af.Eq == "true") != v {
 				okAtoms = false
 			}
-			_ = name
 		}
+		_ = preds
 		if okAtoms {
 			return true
 		}
@@ -168,41 +167,7 @@ func (c *loopClient) entryFeasible(e *Engine, st *State) bool {
 
 // evalRuneExpr evaluates a boolean expression over one rune variable.
 func evalRuneExpr(p *Program, x ast.Expr, v types.Object, r rune) (bool, bool) {
-	info := p.Parser.TypesInfo
-	x = ast.Unparen(x)
-	switch e := x.(type) {
-	case *ast.BinaryExpr:
-		switch e.Op {
-		case token.LOR, token.LAND:
-			a, ok1 := evalRuneExpr(p, e.X, v, r)
-			b, ok2 := evalRuneExpr(p, e.Y, v, r)
-			if !ok1 || !ok2 {
-				return false, false
-			}
-			if e.Op == token.LOR {
-				return a || b, true
-			}
-			return a && b, true
-		case token.EQL, token.NEQ:
-			if objOf(info, e.X) == v {
-				if c, ok := constInt(info, e.Y); ok {
-					return (int64(r) == c) == (e.Op == token.EQL), true
-				}
-			}
-		}
-	case *ast.CallExpr:
-		if f := Callee(info, e); f != nil && len(e.Args) == 1 && objOf(info, e.Args[0]) == v {
-			if fd := p.FuncDecl(p.Parser, f.Name()); fd != nil {
-				return evalRunePred(p, fd, r, 0)
-			}
-		}
-	case *ast.UnaryExpr:
-		if e.Op == token.NOT {
-			b, ok := evalRuneExpr(p, e.X, v, r)
-			return !b, ok
-		}
-	}
-	return false, false
+	return evalBoolExpr(p, x, map[types.Object]int64{v: int64(r)})
 }
 
 func (c *loopClient) PostCall(e *Engine, st *State, call *ast.CallExpr, callee *types.Func) *State {
@@ -678,6 +643,7 @@ func reviewedLoop(p *Program, pkg *packages.Package, fd *ast.FuncDecl, l *ast.Fo
 
 type cursorClient struct {
 	BaseClient
+	InlinePredicates
 	fn string
 }
 
